@@ -182,14 +182,18 @@ class Polygon(Shape2D):
                 )
             self._normal = norm_normal
 
-        d = self._normal.dot(self.vertices[0, :])
         # If this simple check of coplanarity is not robust enough for a
         # desired polygon, it might be necessary to implement more robust
         # checks based on something like
         # http://www.cs.cmu.edu/~quake/robust.html
-        for v in self.vertices:
-            if not np.isclose(self._normal.dot(v), d, planar_tolerance):
-                raise ValueError("Not all vertices are coplanar.")
+        # The distances from the plane through the first vertex are compared with
+        # the size of the polygon, so that the test does not depend on where the
+        # polygon is placed or on its scale.
+        relative_vertices = self.vertices - self.vertices[0]
+        extent = np.max(np.linalg.norm(relative_vertices, axis=1))
+        distances = np.abs(relative_vertices.dot(self._normal))
+        if not np.all(distances <= planar_tolerance * extent):
+            raise ValueError("Not all vertices are coplanar.")
 
         if test_simple:
             planar_vertices, _ = _align_points_by_normal(self._normal, self._vertices)
